@@ -76,6 +76,13 @@ theorem apply_new_rollapp {s s' : St} {o : Op} {id : Nat} {r' : Rollapp} (h : Ro
     rcases markObsolete_p h e id with h1 | h1
     · exact contra h1
     · exact fromNone h1
+  | punish au a' rw => exact contra ((punish_frame h.core.uniq (punishProposal_ok e).2).psame id)
+  | transferOwner sg ra' no =>
+    obtain ⟨r1, hg1, _, _, _, rfl⟩ := transferOwner_ok e
+    exact contra (psame_setRa (r0 := r1) hg1 (by rfl) (by rfl) id)
+  | setSeqParams au sp =>
+    obtain ⟨_, hnp, _, rfl⟩ := setSeqParams_ok e
+    exact contra rfl
   | begin_ dt => simp only [apply] at e; injection e with e; subst e; exact contra (beginBlock_psame s dt id)
   | end_ f => simp only [apply] at e; injection e with e; subst e; exact contra ((endBlock_frame h.core.uniq).psame id)
 
